@@ -3,6 +3,7 @@ module verifharness
 go 1.25.0
 
 require (
+	github.com/aead/siphash v1.0.1
 	github.com/btcsuite/btcd v0.0.0
 	github.com/btcsuite/btcd/address/v2 v2.0.0
 	github.com/btcsuite/btcd/btcec/v2 v2.5.0
@@ -13,14 +14,24 @@ require (
 	github.com/btcsuite/btcd/txscript/v2 v2.0.0
 	github.com/btcsuite/btcd/v2transport v1.1.0
 	github.com/btcsuite/btcd/wire/v2 v2.0.1
+	golang.org/x/crypto v0.40.0
 )
 
 require (
 	github.com/btcsuite/btclog v1.0.0 // indirect
+	github.com/btcsuite/go-socks v0.0.0-20170105172521-4720035b7bfd // indirect
+	github.com/davecgh/go-spew v1.1.1 // indirect
 	github.com/decred/dcrd/crypto/blake256 v1.1.0 // indirect
 	github.com/decred/dcrd/dcrec/secp256k1/v4 v4.4.0 // indirect
-	golang.org/x/crypto v0.40.0 // indirect
+	github.com/decred/dcrd/lru v1.1.3 // indirect
+	github.com/golang/snappy v1.0.0 // indirect
+	github.com/kkdai/bstream v1.0.0 // indirect
+	github.com/pmezard/go-difflib v1.0.0 // indirect
+	github.com/stretchr/objx v0.5.2 // indirect
+	github.com/stretchr/testify v1.10.0 // indirect
+	github.com/syndtr/goleveldb v1.0.1-0.20210819022825-2ae1ddf74ef7 // indirect
 	golang.org/x/sys v0.35.0 // indirect
+	gopkg.in/yaml.v3 v3.0.1 // indirect
 )
 
 replace (
